@@ -3068,9 +3068,10 @@ class PlateSlicer(Slicer):
         Returns: New Plate with requested substances removed.
 
         """
-        self.plate = deepcopy(self.plate)
-        self.apply(lambda elem: elem.remove(what))
-        return self.plate
+        slicer = copy(self)
+        slicer.plate = deepcopy(self.plate)
+        slicer.apply(lambda elem: elem.remove(what))
+        return slicer.plate
 
     def fill_to(self, solvent: Substance, quantity: str):
         """
@@ -3083,7 +3084,8 @@ class PlateSlicer(Slicer):
         Returns: New Plate with desired final `quantity` in each well.
 
         """
-        self.plate = deepcopy(self.plate)
-        self.apply(lambda elem: elem.fill_to(solvent, quantity))
+        slicer = copy(self)
+        slicer.plate = deepcopy(self.plate)
+        slicer.apply(lambda elem: elem.fill_to(solvent, quantity))
 
-        return self.plate
+        return slicer.plate
